@@ -144,8 +144,48 @@ func GetU64(b []byte) uint64 {
 
 // Fill expands a seed into n pseudo-random bytes (xorshift; deterministic,
 // no RNG state outside the arguments).
+// DegenerateBase: the 256 largest seeds stand for degenerate contents instead of a
+// pseudo-random fill - the byte strings a sanity check or a "trim" might single out:
+// +0 all zero, +1 all 0xff, +2 only the first byte set, +3 only the last byte set (0x01),
+// +4 only the top bit of the last byte, +5 0x01 repeated, +6 ascending, +7 only a byte
+// in the middle set, others: the low byte of the seed repeated.
+const DegenerateBase = ^uint64(0) - 255
+
 func Fill(n int, seed uint64) []byte {
 	b := make([]byte, n)
+	if seed >= DegenerateBase {
+		if n == 0 {
+			return b
+		}
+		switch k := byte(seed - DegenerateBase); k {
+		case 0:
+		case 1:
+			for i := range b {
+				b[i] = 0xff
+			}
+		case 2:
+			b[0] = 1
+		case 3:
+			b[n-1] = 1
+		case 4:
+			b[n-1] = 0x80
+		case 5:
+			for i := range b {
+				b[i] = 1
+			}
+		case 6:
+			for i := range b {
+				b[i] = byte(i)
+			}
+		case 7:
+			b[n/2] = 0x40
+		default:
+			for i := range b {
+				b[i] = k
+			}
+		}
+		return b
+	}
 	x := seed*0x9E3779B97F4A7C15 | 1
 	for i := range b {
 		x ^= x << 13
